@@ -255,8 +255,13 @@ _MODULE = None
 _SENT = set()
 
 
-def _worker_init(modname):
-    global _MODULE
+_TIER_DEADLINE = None
+
+
+def _worker_init(modname, tier_deadline=None):
+    global _MODULE, _TIER_DEADLINE
+    _TIER_DEADLINE = tier_deadline
+    symx.GLOBAL_DEADLINE = tier_deadline
     # import first so that module / class bodies are not counted as "entered"
     _MODULE = importlib.import_module(modname)
     import cotengra  # noqa
@@ -269,7 +274,12 @@ def _worker_run(item):
     t0 = time.perf_counter()
     rec = Rec(item)
     try:
-        _MODULE.run_item(item, rec)
+        if _TIER_DEADLINE is not None and time.time() > _TIER_DEADLINE:
+            # the tier's overall time budget is used up: the item is not explored and is reported as such
+            rec.notes["skipped_tier_budget"] = 1
+            rec.budget_hit = True
+        else:
+            _MODULE.run_item(item, rec)
     except BaseException as e:  # noqa
         rec.error = "".join(traceback.format_exception(e))[-3000:]
     d = rec.to_dict()
@@ -321,14 +331,19 @@ def main(modname, argv=None):
 
     _random.Random(seed).shuffle(items)
 
+    # overall time budget of a tier (thorough: 20 min by default; quick: none): once it is used up, running
+    # explorations stop with a budget hit and the remaining work items are reported as not explored
+    budget_s = os.environ.get("VERIF_THOROUGH_BUDGET_S" if tier == "thorough" else "VERIF_QUICK_BUDGET_S", "1200" if tier == "thorough" else "")
+    tier_deadline = (time.time() + float(budget_s)) if budget_s else None
+
     results = []
     if args.jobs <= 1:
-        _worker_init(modname)
+        _worker_init(modname, tier_deadline)
         for it in items:
             results.append(_worker_run(it))
     else:
         ctx = mp.get_context("fork")
-        with ctx.Pool(min(args.jobs, max(1, len(items))), initializer=_worker_init, initargs=(modname,)) as pool:
+        with ctx.Pool(min(args.jobs, max(1, len(items))), initializer=_worker_init, initargs=(modname, tier_deadline)) as pool:
             for r in pool.imap_unordered(_worker_run, items, chunksize=1):
                 results.append(r)
 
@@ -472,6 +487,8 @@ def main(modname, argv=None):
             "paths_infeasible_dropped": agg["aborted"],
             "paths_closed_unsupported": unsupported,
             "items_budget_exhausted": budget_items,
+            "items_not_explored_tier_budget": int(notes.get("skipped_tier_budget", 0)) if isinstance(notes, dict) else 0,
+            "tier_time_budget_s": (float(budget_s) if budget_s else None),
             "reachability_witnesses": agg["reach"],
             "solver_queries": {k: stats.get(k, 0) for k in ("queries", "sat", "unsat", "unknown")},
             "solver_forks": stats.get("forks", 0),
